@@ -56,6 +56,9 @@ pub const AFTER_UNPARK: u32 = 31;
 pub const SPIN: u32 = 32;
 /// `park()` returned (a = address of the tree bin)
 pub const POST_PARK: u32 = 33;
+/// `remove_tree_node` asked for the bin to be untreeified; the old tree bin is still in the
+/// table (b = bin index)
+pub const WIN_BEFORE_UNTREEIFY_STORE: u32 = 34;
 
 /// a resize of the table at address `a` with `b` bins was initiated by this thread
 pub const EV_RESIZE_INITIATED: u32 = 40;
